@@ -65,14 +65,22 @@ def r1_r2_reduce(ctx):
                         ctx.ok("C13.R1", loc(fi), f"reduce | {atoms} batched={bool(bt)} exit={p.exit[0]}")
     # the batching step feeds _batch_transform with (selection of batch_size coordinates, payload) and a fresh batch dimension
     ip = Interp(repo, max_while=1, max_iter=1)
+    good = bad = None
     for p in ip.explore(fi, args={"payload": _payload(True), "yields": None, "dim": "d", "batch_size": 2, "keep_dim": False}):
-        bt = [e for e in p.effects if is_call(e, qual=f"{F}.Action.transform")]
-        for e in bt[:1]:
+        for e in [e for e in p.effects if is_call(e, qual=f"{F}.Action.transform")][:1]:
             a = e.data["args"]
-            if not (len(a) >= 3 and a[2] == "batch.0.d" and "slice" in vkey(a[1]) and "`PAY`" in vkey(a[1])):
-                ctx.violation("C13.R1", fi.qual, loc(fi, e.node), "batch step parameters", f"batch step built as transform({vkey(a)[:200]})")
+            if len(a) >= 3 and isinstance(a[1], list) and not a[1]:
+                continue  # path on which the parameter loop ran zero times
+            if len(a) >= 3 and a[2] == "batch.0.d" and "slice" in vkey(a[1]) and "`PAY`" in vkey(a[1]):
+                good = e
             else:
-                ctx.ok("C13.R1", loc(fi, e.node), "batch step: slices of batch_size coordinates + payload, new dimension batch.0.d")
+                bad = (e, a)
+    if bad is not None:
+        ctx.violation("C13.R1", fi.qual, loc(fi, bad[0].node), "batch step parameters", f"batch step built as transform({vkey(bad[1])[:200]})")
+    elif good is None:
+        ctx.undecided("C13.R1", loc(fi), "no path builds a batching step with parameters")
+    else:
+        ctx.ok("C13.R1", loc(fi, good.node), "batch step: slices of batch_size coordinates + payload, new dimension batch.0.d")
 
 
 def r4_batch_transform(ctx):
